@@ -13,11 +13,14 @@ SPEC = {
         "thread-locality of the slot is taken from the `thread_local!` declaration (generated last_error_storage) and validated by two-thread runs",
         "module outputs cannot be read back through the C API; parity of module data is checked through rule verdicts after yrx_scanner_set_module_output",
     ],
-    "trusted_base": ["Gen/CapiEffects.v: YRX_RESULT variants, exported functions, per-function return paths with last-error effects, storage class of LAST_ERROR, message conversion, the flag -> Compiler method table of _yrx_compiler_create and the value-plumbing tables (out parameters, YRX_* structure literals, callback loops, CString sources, metadata arms, global setters), regenerated from capi/src/*.rs (flag values cross-checked with capi/include/yara_x.h)",
+    "trusted_base": ["Gen/CapiEffects.v: YRX_RESULT variants, exported functions, per-function return paths with last-error effects, storage class of LAST_ERROR, message conversion, the flag -> Compiler method table of _yrx_compiler_create, the operations of every wrapper on the pending module data and the value-plumbing tables (out parameters, YRX_* structure literals, callback loops, CString sources, metadata arms, global setters), regenerated from capi/src/*.rs (flag values cross-checked with capi/include/yara_x.h)",
                      "extern declarations of the yrx_compiler_* functions in harness/src/bin/c19.rs (capi's `compiler` module is private; signatures copied from capi/src/compiler.rs)"],
 }
 
-RULE = ("corpus of crash probes first; then per case either (parity, 60%) a generated rule set (1-3 sources in 0-3 namespaces, 1-4 rules each with tags, metadata of every type, "
+RULE = ("pending-inputs sequences (about 1 case in 10): one scanner, 7-20 steps of yrx_scanner_set_module_data (cuckoo report A/B; the buffer is overwritten by the caller after the next "
+        "scan), set_module_output (test_proto2 with int32_one 7/9), set_global_int and scans through yrx_scanner_scan, yrx_scanner_scan_file, scan_block/finish, then the refused calls of "
+        "block mode; every scan's verdicts show which report / output / global it saw; replayed by the pending-inputs model over the generated module_data operation table and mirrored by "
+        "the Rust API (ScanOptions per call). corpus of crash probes first; then per case either (parity, 60%) a generated rule set (1-3 sources in 0-3 namespaces, 1-4 rules each with tags, metadata of every type, "
         "text/hex/regexp patterns with modifiers, conditions over patterns, filesize, earlier rules and 0-4 globals of type bool/int/float/string/json defined through "
         "yrx_compiler_define_global_*, a compiler created with flags 0 / one flag / any of the 64 combinations of COLORIZE_ERRORS, RELAXED_RE_SYNTAX, ERROR_ON_SLOW_PATTERN, "
         "ERROR_ON_SLOW_LOOP, ENABLE_CONDITION_OPTIMIZATION, DISABLE_INCLUDES (the Rust compiler configured through the methods the header documents) with probe sources that make "
@@ -34,7 +37,7 @@ def classify(case):
     if case.get("crashed"):
         site = "?"
         for t in case.get("trace", []):
-            m = re.search(r"panicked at (?:/repo/)?([^:]+):\d+:\d+:\s*(.*)", t)
+            m = re.search(r"panicked at (?:\S*?/)?((?:capi|lib|parser|fmt|cli)/[^:]+):\d+:\d+:\s*(.*)", t) or re.search(r"panicked at ([^:]+):\d+:\d+:\s*(.*)", t)
             if m:
                 msg = re.sub(r"[^A-Za-z]+", "-", m.group(2))[:40].strip("-")
                 site = m.group(1) + ":" + msg
